@@ -65,9 +65,9 @@ def check(prop, tier, seed):
             workers_seen[f"{obs['mode']}/{obs['workers']}"] += 1
             if st.get("pool_ops", 0) > 0:
                 rep.distinct.add(common.item_label(item))
-        for k in ("pool_ops", "pool_nonidentity", "greedy_ops", "init_points", "init_agents_matched", "calls", "agents", "recorded_args"):
+        for k in ("pool_ops", "pool_nonidentity", "pool_execs", "pool_completed_out_of_order", "greedy_ops", "init_points", "init_agents_matched", "calls", "agents", "recorded_args"):
             counters[k] += st.get(k, 0) or 0
-        for p in st.get("perms", []):
+        for p in st.get("perms", []) + st.get("completion_orders", []):
             perms.add(tuple(p))
         for v in obs["viol"].get("C11", []):
             rep.violation(v["key"], f"[{obs['mode']}, {obs['workers']} workers] " + v["detail"], replay={"kind": "campaign", "item": item, "record_args": True})
@@ -78,7 +78,8 @@ def check(prop, tier, seed):
                 rep.violation(key, f"[{obs['mode']}, {obs['workers']} workers] " + v["detail"], replay={"kind": "campaign", "item": item, "record_args": True})
     rep.extra.update({"outcomes": {k: counters[k] for k in ("ok", "exception", "timeout")},
                       "pooled_operations_observed": counters["pool_ops"],
-                      "pooled_operations_completed_out_of_order": counters["pool_nonidentity"],
+                      "pooled_operations_completed_out_of_order": counters["pool_completed_out_of_order"],
+                      "pooled_operations_gathered_out_of_order": counters["pool_nonidentity"],
                       "distinct_nonidentity_completion_orders_sampled": len(perms),
                       "pooled_greedy_selections_checked": counters["greedy_ops"],
                       "initial_agents_matched_to_evaluations": counters["init_agents_matched"],
@@ -100,7 +101,7 @@ def check(prop, tier, seed):
     rep.require("optimizers_thread", len(opts_seen["thread"]), 80)
     rep.require("optimizers_process", len(opts_seen["process"]), 70)
     rep.require("pooled_operations_observed", counters["pool_ops"], 200)
-    rep.require("pooled_operations_completed_out_of_order", counters["pool_nonidentity"], 20)
+    rep.require("pooled_operations_completed_out_of_order", counters["pool_completed_out_of_order"], 20)
     rep.require("pooled_greedy_selections_checked", counters["greedy_ops"], 5)
     rep.require("initial_agents_matched_to_evaluations", counters["init_agents_matched"], 2000)
     return rep.finish()
